@@ -146,3 +146,33 @@ fn u21_replay_applies_only_the_next_record_in_sequence() {
 	kani::cover!(rid > last + 1, "gap");
 	kani::cover!(rid <= last, "stale");
 }
+
+// ================================================================== U24: the change-set sort key
+// BTreeChangeSet::write_plan sorts the operations of a transaction with the (stable) `sort()`: operations on the same key
+// keep their commit order only if they compare Equal whatever their kind.
+fn any_op(kind: u8, key: u64) -> Operation<u64, u8> {
+	match kind % 6 {
+		0 => Operation::Set(key, kani::any()),
+		1 => Operation::Dereference(key),
+		2 => Operation::Reference(key),
+		3 => Operation::InsertTree(key, NewNode { data: Vec::new(), children: Vec::new() }),
+		4 => Operation::ReferenceTree(key),
+		_ => Operation::DereferenceTree(key),
+	}
+}
+#[kani::proof]
+#[kani::unwind(3)]
+fn u24_operations_are_ordered_by_key_only() {
+	let (ka, kb): (u64, u64) = (kani::any(), kani::any());
+	let a = any_op(kani::any(), ka);
+	let b = any_op(kani::any(), kb);
+	let c = a.cmp(&b);
+	assert!(c == ka.cmp(&kb), "U24.operation_order.is_the_key_order");
+	if ka == kb {
+		assert!(c == std::cmp::Ordering::Equal, "U24.operation_order.same_key_operations_compare_equal_whatever_their_kind");
+	}
+	assert!(a.partial_cmp(&b) == Some(c), "U24.operation_order.partial_cmp_agrees");
+	assert!(*a.key() == ka && *b.key() == kb, "U24.operation.key_accessor");
+	std::mem::forget(a);
+	std::mem::forget(b);
+}
